@@ -271,7 +271,7 @@ func (p *PolicyManager) policyResult(np *networkv1.NetworkPolicy) (*ingressRule,
 		inRules = &ingressRule{dstIPTable: tbl}
 		for i := range np.Spec.Ingress {
 			ir := np.Spec.Ingress[i]
-			rule := p.peerRule(ir.Ports, ir.From)
+			rule := p.namespacedPeerRule(np.Namespace, ir.Ports, ir.From)
 			if rule.ipTable != nil {
 				rule.ipTable.Name = fmt.Sprintf("%s-sip-%d-%s", NamePrefix, i, npNameHash)
 			}
@@ -285,7 +285,7 @@ func (p *PolicyManager) policyResult(np *networkv1.NetworkPolicy) (*ingressRule,
 		eRules = &egressRule{srcIPTable: tbl}
 		for i := range np.Spec.Egress {
 			ir := np.Spec.Egress[i]
-			rule := p.peerRule(ir.Ports, ir.To)
+			rule := p.namespacedPeerRule(np.Namespace, ir.Ports, ir.To)
 			if rule.ipTable != nil {
 				rule.ipTable.Name = fmt.Sprintf("%s-dip-%d-%s", NamePrefix, i, npNameHash)
 			}
@@ -314,10 +314,16 @@ func ingressOrEgress(np *networkv1.NetworkPolicy) (ingress bool, egress bool) {
 }
 
 func (p *PolicyManager) peerRule(ports []networkv1.NetworkPolicyPort, peers []networkv1.NetworkPolicyPeer) *rule {
+	return p.namespacedPeerRule(v1.NamespaceAll, ports, peers)
+}
+
+// namespacedPeerRule resolves the peers of a rule of a policy in the given namespace
+func (p *PolicyManager) namespacedPeerRule(namespace string, ports []networkv1.NetworkPolicyPort,
+	peers []networkv1.NetworkPolicyPeer) *rule {
 	tcpPorts, udpPorts := rulePorts(ports)
 	rule := rule{tcpPorts: tcpPorts, udpPorts: udpPorts}
 	for j := range peers {
-		tbl, err := p.peerTable(&peers[j])
+		tbl, err := p.peerTable(&peers[j], namespace)
 		if err != nil {
 			glog.Warningf("failed to resolve peer ipset %s, %v", peers[j].String(), err)
 			continue
@@ -361,14 +367,22 @@ func (p *PolicyManager) podSelectorToTable(podSelector *v1.LabelSelector, namesp
 	return &ipsetTable{IPSet: ipset.IPSet{SetType: ipset.HashIP}, entries: entries(list, ipset.HashIP)}, nil
 }
 
-func (p *PolicyManager) namespaceSelectorToTable(namespaceSelector *v1.LabelSelector) (*ipsetTable, error) {
+// namespaceSelectorToTable selects the pods matching podSelector (all pods if it is nil) in the namespaces matching
+// namespaceSelector
+func (p *PolicyManager) namespaceSelectorToTable(namespaceSelector, podSelector *v1.LabelSelector) (*ipsetTable, error) {
 	namespaces, err := p.getNamespaces(namespaceSelector)
 	if err != nil {
 		return nil, err
 	}
+	podLabelSelector := labels.Everything()
+	if podSelector != nil {
+		if podLabelSelector, err = v1.LabelSelectorAsSelector(podSelector); err != nil {
+			return nil, fmt.Errorf("failed to convert pod labelSelector %s to selector: %v", podSelector.String(), err)
+		}
+	}
 	var pods []*corev1.Pod
 	for i := range namespaces {
-		list, err := p.podLister.Pods(namespaces[i].Name).List(labels.Everything())
+		list, err := p.podLister.Pods(namespaces[i].Name).List(podLabelSelector)
 		if err != nil {
 			return nil, fmt.Errorf("failed to list pods in namespace %s: %v", namespaces[i].Name, err)
 		}
@@ -377,12 +391,14 @@ func (p *PolicyManager) namespaceSelectorToTable(namespaceSelector *v1.LabelSele
 	return &ipsetTable{IPSet: ipset.IPSet{SetType: ipset.HashIP}, entries: entries(pods, ipset.HashIP)}, nil
 }
 
-func (p *PolicyManager) peerTable(peer *networkv1.NetworkPolicyPeer) (*ipsetTable, error) {
-	if peer.PodSelector != nil {
-		return p.podSelectorToTable(peer.PodSelector, v1.NamespaceAll)
-	}
+// peerTable resolves a peer of a policy in the given namespace: a podSelector alone selects pods in the policy's own
+// namespace, together with a namespaceSelector it selects the matching pods in the selected namespaces
+func (p *PolicyManager) peerTable(peer *networkv1.NetworkPolicyPeer, namespace string) (*ipsetTable, error) {
 	if peer.NamespaceSelector != nil {
-		return p.namespaceSelectorToTable(peer.NamespaceSelector)
+		return p.namespaceSelectorToTable(peer.NamespaceSelector, peer.PodSelector)
+	}
+	if peer.PodSelector != nil {
+		return p.podSelectorToTable(peer.PodSelector, namespace)
 	}
 	if peer.IPBlock != nil {
 		return ipBlockToTable(peer.IPBlock.CIDR, peer.IPBlock.Except)
@@ -768,7 +784,7 @@ func (p *PolicyManager) syncIngressInIPSet(policy *policy, pod *corev1.Pod, add 
 						policy.np.Spec.PodSelector.String(), err)
 					continue
 				}
-				if peerPodLabelSelector.Matches(labels.Set(pod.Labels)) {
+				if peerPodLabelSelector.Matches(labels.Set(pod.Labels)) && p.inPeerNamespace(policy.np, &peer, pod) {
 					p.addOrDelIPSetEntry(add, &policy.ingressRule.srcRules[i].ipTable.IPSet, pod.Status.PodIP)
 				}
 			} else if peer.NamespaceSelector != nil {
@@ -803,7 +819,7 @@ func (p *PolicyManager) syncEgressInIPSet(policy *policy, pod *corev1.Pod, add b
 						policy.np.Spec.PodSelector.String(), err)
 					continue
 				}
-				if peerPodLabelSelector.Matches(labels.Set(pod.Labels)) {
+				if peerPodLabelSelector.Matches(labels.Set(pod.Labels)) && p.inPeerNamespace(policy.np, &peer, pod) {
 					p.addOrDelIPSetEntry(add, &policy.egressRule.dstRules[i].ipTable.IPSet, pod.Status.PodIP)
 				}
 			} else if peer.NamespaceSelector != nil {
@@ -821,6 +837,26 @@ func (p *PolicyManager) syncEgressInIPSet(policy *policy, pod *corev1.Pod, add b
 			}
 		}
 	}
+}
+
+// inPeerNamespace checks if pod is in a namespace a podSelector peer of policy np applies to: the namespaces matching the
+// peer's namespaceSelector if it has one, else the policy's own namespace
+func (p *PolicyManager) inPeerNamespace(np *networkv1.NetworkPolicy, peer *networkv1.NetworkPolicyPeer,
+	pod *corev1.Pod) bool {
+	if peer.NamespaceSelector == nil {
+		return pod.Namespace == np.Namespace
+	}
+	namespaces, err := p.getNamespaces(peer.NamespaceSelector)
+	if err != nil {
+		glog.Warning(err)
+		return false
+	}
+	for _, ns := range namespaces {
+		if ns.Name == pod.Namespace {
+			return true
+		}
+	}
+	return false
 }
 
 // #lizard forgives
